@@ -8,12 +8,15 @@ Correspondence (every run): for generated (tree, backend, start path, search ord
     `fs.walk.info/files/dirs/walk` are executed on the real filesystem;
   * the compiled model executes the same case.  The model's matchers are parameters: they are
     instantiated with the truth tables of the *real* `fs.match` / `fs.match_glob` over every string
-    the walker can ask about (both spellings `combine(dir, name)` and `dir + "/" + name`);
+    the walker can ask about (`filter_glob` twice: exact for files, accept_prefix for directories);
     the tree given to the model is a recursive-listdir snapshot of the real filesystem;
   * compared as exact sequences on MemoryFS-ordered backends, as sorted sequences elsewhere.
 Property oracle (found_input classification): a recursive-listdir reference + the documented
 option semantics evaluated with `fs.wildcard.match` / `fs.glob.match` per pattern — every selected
 file reported exactly once, nothing else reported, directory order constraints, variants agree.
+Hypothesis of `prune_sound_glob` (PrefixComplete) validated on the real `fs.glob.get_matcher`:
+for every filter_glob list and path explored, exact match of a path ⇒ prefix acceptance of every
+ancestor directory.
 """
 from __future__ import annotations
 
@@ -28,36 +31,15 @@ import fsharness as H
 
 LEANCHECKER_MODULES = ["FsModel.Walk", "FsProofs.Lemmas.WalkLemmas", "FsProofs.Lemmas.WalkPathLemmas", "FsProofs.C13"]
 
-SIG_PRUNE = "C13/filter_glob/prefix-expansion-prunes-matching-file"
-SIG_FILEPREFIX = "C13/filter_glob/file-accepted-as-prefix"
-SIG_ROOTSLASH = "C13/glob/root-file-matched-as-double-slash"
-SIG_START = "C13/start-path-not-normalised/glob-ValueError"
-QUIRK_SIG = {"expansion": SIG_PRUNE, "fileprefix": SIG_FILEPREFIX, "rootslash": SIG_ROOTSLASH}
+# the four defects found by this package and since fixed in /repo: a mismatch that one of these
+# re-statements explains exactly is reported (as an ordinary violation) under its regression name
 QUIRKS = ["expansion", "fileprefix", "rootslash"]
+QUIRK_SIG = {q: "C13/regression/" + q for q in QUIRKS}
 
 ORDERED = {"mem", "sub-mem", "mount-root", "wrap-mem"}  # listing order = insertion order (documented for MemoryFS)
 OPT_KEYS = ["filter", "exclude", "filter_dirs", "exclude_dirs", "filter_glob", "exclude_glob", "max_depth"]
 OPT_TAG = {"filter": "f", "exclude": "x", "filter_dirs": "fd", "exclude_dirs": "xd", "filter_glob": "fg",
            "exclude_glob": "xg"}
-
-
-def private_scratch():
-    """16 checks may run in parallel and fsharness.cleanup_scratch removes its whole root: use a
-    sub-directory of the scratch root that only this property touches"""
-    if not H.SCRATCH_ROOT.rstrip("/").endswith("/c13"):
-        H.SCRATCH_ROOT = os.path.join(H.SCRATCH_ROOT, "c13")
-
-
-def load_additions(rep):
-    """open findings proposed by this package (findings/known_findings_additions.json) count as
-    known until they are merged into known_findings.json"""
-    path = os.path.join(vlib.VERIF, "findings", "known_findings_additions.json")
-    if not os.path.exists(path):
-        return
-    have = {f["signature"] for f in rep.open_findings}
-    for f in json.load(open(path)):
-        if f.get("property") == rep.prop_id and f["signature"] not in have:
-            rep.open_findings.append(f)
 
 
 # ----------------------------------------------------------------------------- trees
@@ -231,8 +213,9 @@ def gm(patterns, path):
     return (not patterns) or any(glob.match(p, path) for p in patterns)
 
 
-def split_by_sep(pattern):
-    """independent re-statement of how a glob pattern divides into directory levels ('/' outside [])"""
+def split_legacy(pattern):
+    """how the prefix expansion divided a pattern before fix bf57128 ('/' after '[' not a separator);
+    only used to recognise a regression of the fixed defect 'expansion'"""
     parts, cur, br = [], "", False
     for c in pattern:
         if c == "/" and not br:
@@ -248,36 +231,33 @@ def split_by_sep(pattern):
     return parts
 
 
-def expand_prefixes(patterns):
+def expand_prefixes(patterns, split, complete):
     out = []
     for p in patterns:
-        sp = split_by_sep(p)
+        sp = split(p)
         for i in range(1, len(sp)):
             q = "/".join(sp[:i])
             out.append(q)
             out.append(q + "/")
+        if complete:
+            for i, comp in enumerate(sp):
+                if "**" in comp:  # spans any number of levels: everything below what precedes it
+                    out.append("/".join(sp[:i] + ["**"]))
+                    break
         out.append(p)
     return out
 
 
+def pm_legacy(patterns, path):
+    """prefix acceptance as it was before the fixes a715270 / bf57128"""
+    return (not patterns) or gm(expand_prefixes(patterns, split_legacy, False), path)
+
+
 def pm(patterns, path):
-    """a path accepted as a prefix: it matches a leading part of a pattern cut at a '/'"""
-    return (not patterns) or gm(expand_prefixes(patterns), path)
-
-
-def pm_complete(patterns, path):
-    """upper bound of 'the path is a prefix of a string that matches': additionally, a component that
-    contains '**' can span any number of levels, so everything below what precedes it may be a prefix"""
-    if pm(patterns, path):
-        return True
-    extra = []
-    for p in patterns:
-        sp = split_by_sep(p)
-        for i, comp in enumerate(sp):
-            if "**" in comp:
-                extra.append("/".join(sp[:i] + ["**"]))
-                break
-    return bool(extra) and gm(extra, path)
+    """independent re-statement of 'the path is a prefix of a string that matches': it matches a
+    leading part of a pattern cut at a '/' (every '/': that is where the translation starts a new
+    component), or lies below what precedes a component containing '**'"""
+    return (not patterns) or gm(expand_prefixes(patterns, lambda p: p.split("/"), True), path)
 
 
 def children_of(snap):
@@ -299,7 +279,7 @@ def pyjoin(d, name):
 def oracle(ch, start, opts, quirks=()):
     """The documented subset.  Returns (files, dirs_lower, dirs_upper, pre-order list).
     `quirks` switch on re-statements of the three known deviations of the code (used only to
-    classify a failing input as a known finding)."""
+    recognise a regression of a fixed defect)."""
     f, x = opts.get("filter"), opts.get("exclude")
     fd, xd = opts.get("filter_dirs"), opts.get("exclude_dirs")
     fg, xg = opts.get("filter_glob"), opts.get("exclude_glob")
@@ -316,10 +296,9 @@ def oracle(ch, start, opts, quirks=()):
                     continue
                 if xg is not None and gm(xg, p):
                     continue
-                accepted = fg is None or pm(fg, p)
-                if "expansion" in quirks and not accepted:
+                if "expansion" in quirks and fg is not None and not pm_legacy(fg, p):
                     continue
-                if accepted or pm_complete(fg, p):
+                if fg is None or pm(fg, p):
                     upper.add(p)
                 if fg is None or gm(fg, p):
                     lower.add(p)
@@ -333,7 +312,7 @@ def oracle(ch, start, opts, quirks=()):
                     continue
                 if xg is not None and gm(xg, gp):
                     continue
-                if fg is not None and not (pm(fg, gp) if "fileprefix" in quirks else gm(fg, gp)):
+                if fg is not None and not (pm_legacy(fg, gp) if "fileprefix" in quirks else gm(fg, gp)):
                     continue
                 files.append(p)
                 for a in anc:  # a directory that contains a selected file is opened, hence reported
@@ -364,6 +343,7 @@ def tables(fs_obj, ch, opts):
             args.append("%s=%s" % (OPT_TAG[k], hxlist([n for n in names if fs_obj.match(v, n)])))
         elif k == "filter_glob":
             args.append("fg=" + hxlist([s for s in strings if fs_obj.match_glob(v, s, accept_prefix=True)]))
+            args.append("fe=" + hxlist([s for s in strings if fs_obj.match_glob(v, s)]))
         else:
             args.append("xg=" + hxlist([s for s in strings if fs_obj.match_glob(v, s)]))
     return args
@@ -371,8 +351,7 @@ def tables(fs_obj, ch, opts):
 
 WILD_SMALL = [["a"], [".*"], ["c*"], ["*"], ["?"], [], ["a", ".b"], ["c[*]"], ["zz"]]
 GLOB_SMALL = [["*"], ["**"], ["a/*"], ["**/a"], ["*/a"], ["a/"], ["/a/**"], ["**/.b"], ["c*/**"], ["a/a/*"], [],
-              ["*/*"], ["/.b/", "a"], ["**/c[*]"], ["a/.b"]]
-# deliberately not here: patterns whose '**' is glued to other text in a component (known finding)
+              ["*/*"], ["/.b/", "a"], ["**/c[*]"], ["a/.b"], ["**a"], ["c[*/a"]]
 
 
 def small_option_sets():
@@ -525,8 +504,19 @@ def run_real(fs_obj, start, search, opts, bound=True):
     return out
 
 
-def model_requests(tree_enc, start, search, targs):
-    st = hx(start.strip("/"))
+def norm_start(start):
+    """abspath(normpath(start)) or None when normpath refuses it"""
+    from fs.path import abspath, normpath
+    from fs.errors import IllegalBackReference
+
+    try:
+        return abspath(normpath(start))
+    except IllegalBackReference:
+        return None
+
+
+def model_requests(tree_enc, start, search, targs, raw=False):
+    st = ("R" + hx(start)) if raw else hx(start.strip("/"))
     s = "b" if search == "breadth" else "d"
     vs = ("iter", "info", "files", "dirs", "walk") + (("iterp",) if s == "b" else ())
     return ["walk.run %s %s %s %s %s" % (tree_enc, st, s, v, " ".join(targs)) for v in vs]
@@ -580,7 +570,7 @@ def inside(p, d):
 
 
 class Case:
-    __slots__ = ("kind", "snap", "start", "search", "opts", "real", "model", "ch", "origin")
+    __slots__ = ("kind", "snap", "start", "nstart", "search", "opts", "real", "model", "ch", "origin")
 
     def to_json(self):
         return {"backend": self.kind, "tree": [[e[0], e[1]] for e in self.snap], "start": self.start,
@@ -597,20 +587,25 @@ def judge(rep, c):
     rep.nontrivial(c.kind, tuple(map(tuple, c.snap)), c.start, c.search, json.dumps(c.opts, sort_keys=True))
     label = "%s %s start=%r opts=%r tree=%r" % (c.kind, c.search, c.start, c.opts, [e[1] + ("/" if e[0] == "D" else "") for e in c.snap][:14])
     bad = []  # (why, found_input, signature)
+    ns = c.nstart  # the start path as _iter_walk normalises it
+    if ns != c.start:
+        rep.count("start-spelling")
 
     info = real["info"]
     if isinstance(info, str):
         # start path is missing / a file: every variant must fail the same way, and so must the model
         kinds0 = {"/" + e[1]: e[0] == "D" for e in c.snap}
-        want = "err DirectoryExpected" if kinds0.get(c.start) is False else "err ResourceNotFound"
-        if c.start == "/" or kinds0.get(c.start) is True:
+        want = "err DirectoryExpected" if kinds0.get(ns) is False else "err ResourceNotFound"
+        if ns is None:
+            want = "err IllegalBackReference"
+        elif ns == "/" or kinds0.get(ns) is True:
             want = "a listing"
         for k, v in real.items():
             if v != want:
                 bad.append(("start %r: %s gave %r, expected %s" % (c.start, k, v, want), True, "C13/start-error"))
                 break
     else:
-        files, lower, upper = oracle(c.ch, c.start, c.opts)
+        files, lower, upper = oracle(c.ch, ns, c.opts)
         rfiles = [p for p, d in info if not d]
         rdirs = [p for p, d in info if d]
         # exactly once
@@ -618,7 +613,7 @@ def judge(rep, c):
             bad.append(("a resource is reported twice: %r" % info[:12], True, "C13/duplicate"))
         # selected files: none dropped, nothing else; directories within their bounds
         def fits(q):
-            qf, ql, qu = oracle(c.ch, c.start, c.opts, q)
+            qf, ql, qu = oracle(c.ch, ns, c.opts, q)
             return sorted(qf) == sorted(rfiles) and ql <= set(rdirs) <= qu | ql
 
         if not (sorted(rfiles) == sorted(files) and lower <= set(rdirs) <= upper | lower):
@@ -636,7 +631,7 @@ def judge(rep, c):
                    % (dropped[:6], sorted(lower - set(rdirs))[:6], extra[:6], sorted(set(rdirs) - upper - lower)[:6]))
             if explained:
                 for q in explained:
-                    bad.append((why + " (the deviation '%s')" % q, True, QUIRK_SIG[q]))
+                    bad.append((why + " (regression of the fixed defect '%s')" % q, True, QUIRK_SIG[q]))
             elif sorted(rfiles) != sorted(files):
                 bad.append((why, True, "C13/files-mismatch"))
             else:
@@ -644,8 +639,8 @@ def judge(rep, c):
         # every reported path is a real resource of the right kind below the start
         kinds = {"/" + e[1]: e[0] == "D" for e in c.snap}
         for p, d in info:
-            if kinds.get(p) != d or not inside(p, c.start):
-                bad.append(("reported %r (dir=%s) is not such a resource below %r" % (p, d, c.start), True, "C13/wrong-path"))
+            if kinds.get(p) != d or not inside(p, ns):
+                bad.append(("reported %r (dir=%s) is not such a resource below %r" % (p, d, ns), True, "C13/wrong-path"))
                 break
         # order constraints
         pos = {p: i for i, (p, _) in enumerate(info)}
@@ -677,7 +672,7 @@ def judge(rep, c):
                 bad.append(("walk() steps %r do not hold exactly the resources of info() %r" % (steps[:6], info[:8]), True, "C13/steps-content"))
             sp = [p for p, _, _ in steps]
             ncomp = lambda q: 0 if q == "/" else q.count("/")  # noqa
-            scanned = [c.start] + [p for p in rdirs if c.opts.get("max_depth") is None or ncomp(p) - ncomp(c.start) < c.opts["max_depth"]]
+            scanned = [ns] + [p for p in rdirs if c.opts.get("max_depth") is None or ncomp(p) - ncomp(ns) < c.opts["max_depth"]]
             if sorted(sp) != sorted(scanned) or len(set(sp)) != len(sp):
                 bad.append(("walk() step paths %r are not the scanned directories %r" % (sp[:8], scanned[:8]), True, "C13/steps-paths"))
             if not isinstance(it, str) and sp != [x[0] for x in it if x[1] is None]:
@@ -690,27 +685,52 @@ def judge(rep, c):
     if "iterp" in c.model and not isinstance(real["iter"], str):
         # the paths-only breadth machine (queue of paths, every directory re-read from the tree)
         a, b = canon(real["iter"], ordered), canon(c.model["iterp"], ordered)
-        if a != b and not any(fi for _, fi, _ in bad):
+        if a != b:
             bad.append(("model↔code: paths-only breadth machine differs: real %r model %r" % (a[:10], b[:10]), False,
                         "C13/correspondence/iterp"))
     for v in ("iter", "info", "files", "dirs", "walk"):
         a, b = canon(real[v], ordered), canon(c.model[v], ordered)
         if a != b:
-            if not any(fi for _, fi, _ in bad):
-                bad.append(("model↔code: %s differs: real %r model %r" % (v, a if isinstance(a, str) else a[:10], b if isinstance(b, str) else b[:10]),
-                            False, "C13/correspondence/" + v))
+            bad.append(("model↔code: %s differs: real %r model %r" % (v, a if isinstance(a, str) else a[:10], b if isinstance(b, str) else b[:10]),
+                        False, "C13/correspondence/" + v))
             break
     for why, found, sig in bad:
         rep.count("verdict:" + sig)
         if os.environ.get("C13_DEBUG") and sig == os.environ["C13_DEBUG"]:
             print("DEBUG", label, why)
-        if len(rep.violations) < 8:
-            rep.violation(c.to_json(), label + " — " + why, found_input=found, signature=sig)
-        else:
-            f = rep.match_known(sig)
-            if f is not None:
-                rep.known(f)
+        rep.violation(c.to_json(), label + " — " + why, found_input=found, signature=sig)  # vlib caps the number
     return not bad
+
+
+_PC_SEEN = set()
+
+
+def check_prefix_complete(rep, patterns, paths, where):
+    """The hypothesis of `prune_sound_glob`, on the real matcher: for every path that
+    `glob.get_matcher(patterns)` matches, `glob.get_matcher(patterns, accept_prefix=True)` accepts
+    every ancestor directory below the root (what `_check_open_dir` asks on the way to it)."""
+    from fs import glob
+
+    key = (tuple(patterns), tuple(paths))
+    if not patterns or key in _PC_SEEN:
+        return
+    _PC_SEEN.add(key)
+    exact = glob.get_matcher(patterns, True)
+    pref = glob.get_matcher(patterns, True, accept_prefix=True)
+    for p in paths:
+        rep.evaluations += 1
+        if not exact(p):
+            continue
+        rep.count("prefix-complete:matching-path")
+        comps = p.strip("/").split("/")
+        for i in range(1, len(comps)):
+            d = "/" + "/".join(comps[:i])
+            if not pref(d):
+                rep.violation({"kind": "prefix-complete", "patterns": patterns, "path": p, "ancestor": d, "where": where},
+                              "PrefixComplete fails on the real fs.glob.get_matcher: patterns %r match %r but accept_prefix "
+                              "rejects its ancestor directory %r — a walk with filter_glob=%r prunes %r and drops the file"
+                              % (patterns, p, d, patterns, d), found_input=True, signature="C13/prefix-complete")
+                return
 
 
 def run_cases(rep, drv, specs):
@@ -726,11 +746,14 @@ def run_cases(rep, drv, specs):
             for start, search, opts in runs:
                 c = Case()
                 c.kind, c.snap, c.start, c.search, c.opts, c.ch, c.origin = kind, real_snap, start, search, opts, ch, [[e[0], e[1]] for e in snap]
+                c.nstart = norm_start(start)
                 c.real = run_real(b.fs, start, search, opts, bound=(len(cases) % 3 == 0))
                 key = json.dumps(opts, sort_keys=True)
                 if key not in tcache:
                     tcache[key] = tables(b.fs, ch, opts)
-                reqs += model_requests(enc, start, search, tcache[key])
+                    if opts.get("filter_glob"):
+                        check_prefix_complete(rep, opts["filter_glob"], ["/" + e[1] for e in real_snap], kind)
+                reqs += model_requests(enc, start, search, tcache[key], raw=(c.nstart != start))
                 cases.append(c)
         finally:
             b.close()
@@ -775,15 +798,28 @@ def exhaustive_specs(quick, backs):
 # ----------------------------------------------------------------------------- directed cases (findings, corpus)
 
 
+SPELLINGS = ["%s", "/%s", "%s/", "/%s/", "./%s", "zz/../%s", "//%s", "%s/.", "../%s", "%s/../.."]
+
+
+def spell_start(rng, start):
+    """a different spelling of a normalised absolute start path (some climb above the root: the
+    walk must then fail with IllegalBackReference, as the model's normpath says)"""
+    return rng.choice(SPELLINGS) % start.strip("/")
+
+
 def directed(rep, drv):
-    """minimal inputs of the recorded findings (printed as KNOWN-FINDING while open) and of each
-    model branch"""
+    """minimal inputs of the defects this package found (all fixed in /repo: they are ordinary
+    compared cases now and violations if they return), of each model branch, and every start-path
+    spelling × representative options"""
     t1 = [("D", "a"), ("F", "a/x.py", b""), ("F", "x.py", b"")]
     t2 = [("D", "foo"), ("F", "foo/bar", b""), ("D", "foo/baz"), ("F", "foo/baz/q.py", b"")]
+    t3 = [("D", "d"), ("D", "d/c"), ("D", "d/c/[z"), ("F", "d/c/[z/f", b""), ("D", "[a"), ("F", "[a/b]x", b"")]
+    t4 = [("D", "a"), ("D", "a/b"), ("F", "a/b/y.py", b""), ("F", "a/x.py", b""), ("F", "x.py", b"")]
     specs = []
     for search in ("breadth", "depth"):
         specs.append(("mem", t1, [("/", search, {"filter_glob": ["**.py"]}),
                                   ("/", search, {"filter_glob": ["*.py"]}),
+                                  ("/", search, {"filter_glob": ["/*.py"]}),
                                   ("/", search, {"exclude_glob": ["*.py"]}),
                                   ("/a", search, {"filter_glob": ["a/*.py"]}),
                                   ("/", search, {"exclude": []}),
@@ -791,54 +827,54 @@ def directed(rep, drv):
                                   ("/x.py", search, {}), ("/nope", search, {}), ("/a/x.py", search, {"max_depth": 1})]))
         specs.append(("mem", t2, [("/", search, {"filter_glob": ["foo/bar/*.py"]}),
                                   ("/", search, {"filter_glob": ["foo/*/q.py"]}),
+                                  ("/", search, {"filter_glob": ["*/*.py"]}),
                                   ("/foo", search, {"filter_glob": ["**/q.py"], "exclude_dirs": ["baz"]})]))
+        specs.append(("mem", t3, [("/", search, {"filter_glob": ["d/*/[*/f"]}),
+                                  ("/", search, {"filter_glob": ["[a/b]x"]}),
+                                  ("/d", search, {"filter_glob": ["**[z/f"]})]))
+        runs = []
+        for sp in ["a", "a/", "/a/", "a/../a", "/a/b/..", "./a", "", ".", "//a", "a/b/../..", "../a", "a/../..", "nope/", "x.py/"]:
+            for opts in ({}, {"filter": ["*.py"]}, {"max_depth": 1}, {"filter_glob": ["**/*.py"]}, {"exclude_glob": ["**/y.py"]},
+                         {"filter_glob": ["a/*"], "exclude_glob": ["a/b"]}):
+                runs.append((sp, search, opts))
+        specs.append(("mem", t4, runs))
+        specs.append(("os", t4, runs[::3]))
     run_cases(rep, drv, specs)
-    spellings(rep)
 
 
-def spellings(rep):
-    """start paths that are not normalised: walk() normalises; files/dirs/info must reach the same
-    resources (their paths are compared after normalisation)"""
-    from fs.memoryfs import MemoryFS
-    from fs.path import abspath, normpath
-
-    m = MemoryFS()
-    populate(m, [("D", "a"), ("D", "a/b"), ("F", "a/b/y.py", b""), ("F", "a/x.py", b""), ("F", "x.py", b"")])
-    for sp in ["a", "a/", "/a/", "a/../a", "/a/b/..", "./a", "", "."]:
-        canon_start = abspath(normpath(sp))
-        for opts in ({}, {"filter": ["*.py"]}, {"max_depth": 1}, {"filter_glob": ["**/*.py"]}, {"exclude_glob": ["**/y.py"]}):
-            for search in ("breadth", "depth"):
-                rep.evaluations += 1
-                want = [(p, bool(i.is_dir)) for p, i in m.walk.info(path=canon_start, search=search, **opts)]
-                case = {"backend": "mem", "start": sp, "opts": opts, "search": search, "kind": "spelling"}
-                try:
-                    got = [(abspath(normpath(p)), bool(i.is_dir)) for p, i in m.walk.info(path=sp, search=search, **opts)]
-                    gotw = [q for s in m.walk(path=sp, search=search, **opts) for q in [(pyjoin(s.path, i.name), True) for i in s.dirs] + [(pyjoin(s.path, i.name), False) for i in s.files]]
-                except ValueError as e:
-                    rep.violation(case, "walk.info(path=%r, %r) raises ValueError(%s): files/dirs/info do not normalise the start path "
-                                  "although walk() does" % (sp, opts, e), found_input=True, signature=SIG_START)
-                    continue
-                if got != want or sorted(gotw) != sorted(want):
-                    rep.violation(case, "start path spelling %r: info %r / walk %r, normalised start gives %r" % (sp, got, gotw, want),
-                                  found_input=True, signature="C13/start-spelling")
-    m.close()
+def prefix_complete_sweep(rep, rng, n_patterns, n_paths):
+    """PrefixComplete on the real matcher beyond the trees that are walked: random patterns (also the
+    glued-'**' and '[' shapes that used to break it) x synthetic paths up to depth 5"""
+    paths = []
+    for _ in range(n_paths):
+        paths.append("/" + "/".join(rng.choice(RAND_NAMES) for _ in range(rng.randint(1, 5))))
+    fixed = [["**.py"], ["d?e/**x/*.py"], ["*/[*/**"], ["[a/b]x"], ["a/**/b", "**y.py"], ["/foo*/bar**"], ["**/*"], ["*"], ["a//b"],
+             ["**"], ["*/*/*"], ["{k}/**{k}"], ["!n/[z]/**"], ["**/.git/**"], ["a b/*"], ["é.py/**"]]
+    for pats in fixed:
+        check_prefix_complete(rep, pats, paths + ["/" + "/".join(p.strip("/").split("/") * 2) for p in paths[:50]], "sweep")
+    for _ in range(n_patterns):
+        base = [p.strip("/") for p in rng.sample(paths, 3)]
+        pats = [gen_glob(rng, base, glued=rng.random() < 0.3) for _ in range(rng.choice([1, 1, 2]))]
+        if rng.random() < 0.2:
+            pats[0] = pats[0].replace("*", "[*", 1)
+        check_prefix_complete(rep, pats, paths, "sweep")
 
 
 # ----------------------------------------------------------------------------- entry points
 
 
 def run(rep, tier, seed, deep=False):
-    private_scratch()
-    load_additions(rep)
     drv = vlib.Driver()
     quick = tier == "quick"
     rng = vlib.rng_for(seed, "c13")
-    rep.rule = ("directed finding/branch cases; exhaustive: every tree with <= %d nodes over names {a,.b,c*} x every start directory x "
+    rep.rule = ("directed regression/branch/start-spelling cases; exhaustive: every tree with <= %d nodes over names {a,.b,c*} x every start directory x "
                 "both orders x (no option, each option alone over %d pattern lists, depths -1..4, pairs; in full for the smallest trees, "
                 "rotating stride for the largest) on MemoryFS, a stride sample on the other backends; random trees (depth<=6, branching<=4, metacharacter/dot names, empty dirs) x random option "
                 "subsets x backends %s. Compared per case: _iter_walk events, info, files, dirs, walk Steps, bound walker — with the "
                 "compiled model (exact sequence on insertion-ordered backends, sorted elsewhere) and with the recursive-listdir + "
-                "documented-semantics oracle. distinct = distinct (backend, tree, start, order, options)"
+                "documented-semantics oracle; ~12%% of the random start paths in a non-normalised spelling (model normalises with its "
+                "normpath); PrefixComplete (hypothesis of prune_sound_glob) evaluated on the real fs.glob.get_matcher for every "
+                "filter_glob list x every path of its tree and on a random pattern x synthetic path sweep. distinct = distinct (backend, tree, start, order, options)"
                 % (4 if quick else 5, len(WILD_SMALL) * 4 + len(GLOB_SMALL) * 2, BACKENDS_QUICK if quick else BACKENDS_ALL))
     rep.assumptions = [
         "the name matchers are parameters of the model, instantiated per case with the truth table of the real fs.match / "
@@ -872,6 +908,8 @@ def run(rep, tier, seed, deep=False):
                 o = gen_opts(rng, t, glued=(j == n_runs - 1))
                 if kind == "mount" and st != "/nope":
                     st = "/m1" if st == "/" else ("/m1" + st if rng.random() < 0.8 else "/")
+                if rng.random() < 0.12:
+                    st = spell_start(rng, st)
                 runs.append((st, rng.choice(["breadth", "depth"]), o))
                 if j % 4 == 0:
                     runs.append((st, "depth" if runs[-1][1] == "breadth" else "breadth", o))
@@ -882,6 +920,8 @@ def run(rep, tier, seed, deep=False):
         for c in cases[:: max(1, len(cases) // 6)][:6]:
             rep.sample({"backend": c.kind, "tree": [e[1] for e in c.snap][:8], "start": c.start, "search": c.search, "opts": c.opts,
                         "info": c.real["info"] if isinstance(c.real["info"], str) else c.real["info"][:6]})
+        # ---- the hypothesis of prune_sound_glob on the real matcher, beyond the walked trees
+        prefix_complete_sweep(rep, rng, 150 if quick else 2500, 300 if quick else 1200)
         # ---- _calculate_depth transcription on raw strings
         from fs.walk import Walker
         strs = ["", "/", "//", "a", "/a", "a/", "/a/b", "/a//b", "//a/b//", "a/b/c", "/ /", "/a/b/c/d/"]
@@ -898,11 +938,10 @@ def run(rep, tier, seed, deep=False):
 
 
 def replay(rep, case):
-    private_scratch()
-    load_additions(rep)
     c0 = case["case"]
-    if c0.get("kind") == "spelling":
-        spellings(rep)
+    if c0.get("kind") == "prefix-complete":
+        check_prefix_complete(rep, c0["patterns"], [c0["path"]], "replay")
+        print("patterns", c0["patterns"], "path", c0["path"], "->", "violated" if rep.violations else "holds")
         return 1 if rep.violations else 0
     if c0.get("kind") == "depth":
         from fs.walk import Walker
@@ -915,7 +954,8 @@ def replay(rep, case):
     finally:
         H.cleanup_scratch()
     c = cases[0]
+    rep.flush_deferred()
     print("real :", c.real["info"])
     print("model:", c.model["info"])
-    print("oracle files:", None if isinstance(c.real["info"], str) else sorted(oracle(c.ch, c.start, c.opts)[0]))
+    print("oracle files:", None if isinstance(c.real["info"], str) or c.nstart is None else sorted(oracle(c.ch, c.nstart, c.opts)[0]))
     return 1 if rep.violations else 0
